@@ -119,6 +119,19 @@ CHECKS = {
         note=('XML input. One recorded finding (a failed exponentialrate label replaces the invariant of the same location) is '
               'excluded by exact descriptor and counted; one cascading warning was repaired in /repo (fix: commit 8ba02a2).'),
     ),
+    'C10': dict(
+        engine='oracle-server + formula enumeration + Hypothesis (harness/py/prop_C10.py)',
+        technique='property-based testing against a reference convexity classifier: boolean formula trees over clock/integer atoms placed as guard and as invariant; complete enumeration of depth <= 2, random trees of depth <= 4; must-reject / must-accept / unconstrained',
+        category='exploration',
+        text=('Formula trees over integer predicates, clock bounds and clock difference bounds with && || ! imply xor == != '
+              'forall exists are placed as edge guard and as location invariant. A small reference classifier derived from the '
+              'statement decides must-reject (a clock atom under !, in an imply antecedent, under exists, under == != xor, or '
+              'under a || with clock atoms on both sides) and must-accept (plain conjunction of atoms accepted alone); the '
+              'type checker must agree. The depth <= 2 space (26 337 formulas x 2 positions) is enumerated in every run.'),
+        design_ref='DESIGN.md 4/C10',
+        note=('Formulas are batched 40 per model (one edge and one location each) and judged by the path of the reported errors; '
+              'every apparent violation is re-run alone before it counts. Which atoms are acceptable alone per position is measured.'),
+    ),
     'C14': dict(
         engine='oracle-server expression builder + TypeChecker::checkExpression; cell enumeration + Hypothesis (harness/py/prop_C14.py)',
         technique='metamorphic testing (operand swap): acceptance and result-type kind of a op b vs b op a, c ? a : b vs !c ? b : a (bare and inside lvalue / reference-argument contexts), f(A&) with a B variable vs f(B&) with an A variable; complete enumeration of type-class pairs x operators, random representatives',
